@@ -115,19 +115,21 @@ theorem callHook_sigs (P : Nat → Nat → Prop) (u : Nat) (h : String) (s : Sta
       simp only [pure]
       exact ⟨(hb _).trans (notify_sigs P _ _ _ _ _), by rw [C18h.notify_k]; rfl⟩
 
-/-- `os.kill(p, sg)`: the kernel's `kill`, one log entry for exactly this pid and signal -/
+/-- `os.kill(p, sg)`: the kernel's `kill` (delivered, or refused with EPERM), one log entry for exactly this pid
+    and signal — also when the call is refused -/
 theorem kKill_sigs (P : Nat → Nat → Prop) (p sg : Nat) (via : String) (s : State) (h : P p sg) :
-    SigsIn P s (kKill p sg via s).2 ∧ (kKill p sg via s).2.k = (s.k.kill p sg).1 := by
+    SigsIn P s (kKill p sg via s).2 ∧ (kKill p sg via s).2.k = (s.k.killD p sg).1 := by
   unfold kKill
   simp only [bind, pure, runK]
   refine ⟨?_, ?_⟩
-  · refine SigsIn.trans (s' := { s with k := (s.k.kill p sg).1 }) (.of_log_eq rfl) ?_
+  · refine SigsIn.trans (s' := { s with k := (s.k.killD p sg).1 }) (.of_log_eq rfl) ?_
     apply emit_sigs
     intro p' sg' st via' he
     injection he with h1 h2
     rw [← h1, ← h2]; exact h
   · simp only [emit, modS]
-    split <;> rfl
+    rw [apply_ite State.k]
+    exact ite_self _
 
 /-! ### the parent links of the process table only ever disappear -/
 
@@ -266,6 +268,13 @@ theorem kill (k : Kernel) (pid sig : Nat) : PShrink k (k.kill pid sig).1 := by
             · exact refl _
       · exact refl _
 
+/-- the daemon's own `kill`: refused (only the tick happened) or the plain `kill` -/
+theorem killD (k : Kernel) (pid sig : Nat) : PShrink k (k.killD pid sig).1 := by
+  simp only [Kernel.killD]
+  split
+  · exact tick k
+  · exact kill k pid sig
+
 theorem stateOf (k : Kernel) (pid : Nat) : PShrink k (k.stateOf pid).1 := tick k
 
 theorem children (k : Kernel) (pid : Nat) (r : Bool) : PShrink k (k.children pid r).1 := by
@@ -344,18 +353,19 @@ theorem children_desc (k : Kernel) (pid : Nat) (r : Bool) (l : List Nat) (h : (k
     `processes` dict — a worker of another watcher, an unrelated or a dead pid — it returns at once:
     no hook, no kernel call, the state is untouched. -/
 theorem C18_send_signal_only_own (u pid sig : Nat) (s : State) (h : pid ∉ (getW u s).1.pids) :
-    sendSignal u pid sig s = (true, s) := by
+    sendSignal u pid sig s = (.ok, s) := by
   unfold sendSignal
   simp only [bind]
   erw [if_neg (by simpa using h)]
   rfl
 
 /-- `send_signal` on a listed pid when the `before_signal` hook does not veto (or the signal is
-    SIGKILL): hook, `kill(pid, sig)`, and the `after_signal` hook unless the process was gone -/
+    SIGKILL): hook, `kill(pid, sig)`, and the `after_signal` hook unless the call raised (the process was
+    gone, or the daemon is not permitted to signal it) -/
 theorem C18h.sendSignal_sent (u p sig : Nat) (s : State) (hp : (getW u s).1.pids.contains p = true)
     (hnv : ¬ (sig ≠ 9 ∧ (callHook u "before_signal" s).1 = false)) :
     (sendSignal u p sig s).2 =
-      (if (kKill p sig "" (callHook u "before_signal" s).2).1
+      (if (kKill p sig "" (callHook u "before_signal" s).2).1 = .ok
        then (callHook u "after_signal" (kKill p sig "" (callHook u "before_signal" s).2).2).2
        else (kKill p sig "" (callHook u "before_signal" s).2).2) := by
   unfold sendSignal
@@ -368,21 +378,19 @@ theorem C18h.sendSignal_sent (u p sig : Nat) (s : State) (hp : (getW u s).1.pids
     intro h9 hf
     exact hnv ⟨h9, hf⟩
   erw [if_neg hcond]
-  cases hk : (kKill p sig "" (callHook u "before_signal" s).2).1
-  · have h1 : ¬ ((kKill p sig "" (callHook u "before_signal" (getW u s).snd).snd).fst = true) := by
-      have : (kKill p sig "" (callHook u "before_signal" (getW u s).snd).snd).fst = false := hk
-      rw [this]; simp
-    erw [if_neg h1]
-    simp only [pure, Bool.false_eq_true, if_false]
-    rfl
-  · have h1 : (kKill p sig "" (callHook u "before_signal" (getW u s).snd).snd).fst = true := hk
+  by_cases hk : (kKill p sig "" (callHook u "before_signal" s).2).1 = .ok
+  · have h1 : (kKill p sig "" (callHook u "before_signal" (getW u s).snd).snd).fst = SigRes.ok := hk
     erw [if_pos h1]
-    simp only [pure, if_true]
+    rw [if_pos hk]
+    rfl
+  · have h1 : ¬ ((kKill p sig "" (callHook u "before_signal" (getW u s).snd).snd).fst = SigRes.ok) := hk
+    erw [if_neg h1]
+    rw [if_neg hk]
     rfl
 
 /-- **the only signal `send_signal(pid, sig)` can cause is `kill(pid, sig)`, and only for a listed
-    pid** — in every state, whatever the hooks do: every `Obs.sig` entry it appends has target `pid`
-    and signal `sig`, and `pid` is a key of the watcher's `processes`. -/
+    pid** — in every state, whatever the hooks do, and whether the kernel delivers or refuses it: every
+    `Obs.sig` entry it appends has target `pid` and signal `sig`, and `pid` is a key of the watcher's `processes`. -/
 theorem C18_send_signal_target (u pid sig : Nat) (s : State) :
     SigsIn (fun p sg => p = pid ∧ sg = sig ∧ pid ∈ (getW u s).1.pids) s (sendSignal u pid sig s).2 := by
   by_cases hm : pid ∈ (getW u s).1.pids
@@ -433,21 +441,28 @@ theorem C18h.callHook_blocked (u : Nat) (h : String) (s : State) : (callHook u h
       simp only [pure]
       rw [C18h.notify_blocked]; rfl
 
+/-- the log entry of the daemon's `kill(p, sg)`: the state of the target, and `!` after the `via` tag when the
+    kernel refused the call (EPERM) -/
 theorem C18h.kKill_log_open (p sg : Nat) (via : String) (s : State) (hb : s.blocked = false) :
-    (kKill p sg via s).2.log = s.log ++ [Obs.sig p sg (s.k.kill p sg).2 via] := by
+    (kKill p sg via s).2.log =
+      s.log ++ [Obs.sig p sg (s.k.killD p sg).2.1 (if (s.k.killD p sg).2.2 = true then via ++ "!" else via)] := by
   simp [kKill, bind, runK, emit, modS, hb, Obs.isRep, Obs.isEv, pure]
 
-/-- **the addressed worker does get the signal**: for a listed pid, unless `before_signal` vetoes a
-    signal other than SIGKILL, `send_signal(pid, sig)` issues `kill(pid, sig)` (in a daemon that is not
-    hung): an entry `Obs.sig pid sig _ ""` is in the part of the log it appends. -/
+/-- **the addressed worker does get the signal** — or, when the daemon is not permitted to signal it, the attempt
+    is made and refused: for a listed pid, unless `before_signal` vetoes a signal other than SIGKILL,
+    `send_signal(pid, sig)` issues `kill(pid, sig)` (in a daemon that is not hung): an entry
+    `Obs.sig pid sig _ via` is in the part of the log it appends, with `via = ""` (delivered) or `"!"` (refused
+    with EPERM: `Kernel.killD` says which). -/
 theorem C18_send_signal_delivers (u pid sig : Nat) (s : State) (hm : pid ∈ (getW u s).1.pids)
     (hnv : ¬ (sig ≠ 9 ∧ (callHook u "before_signal" s).1 = false)) (hb : s.blocked = false) :
-    ∃ st, Obs.sig pid sig st "" ∈ C18h.newLog s (sendSignal u pid sig s).2 := by
+    ∃ st, Obs.sig pid sig st (if ((callHook u "before_signal" s).2.k.killD pid sig).2.2 = true then "!" else "")
+      ∈ C18h.newLog s (sendSignal u pid sig s).2 := by
   have hp : (getW u s).1.pids.contains pid = true := by simpa using hm
   obtain ⟨e1, he1, _⟩ := (callHook_sigs (fun _ _ => True) u "before_signal" s).1
   have hb1 : (callHook u "before_signal" s).2.blocked = false := by rw [C18h.callHook_blocked]; exact hb
   have h2 := C18h.kKill_log_open pid sig "" _ hb1
-  refine ⟨((callHook u "before_signal" s).2.k.kill pid sig).2, ?_⟩
+  simp only [String.empty_append] at h2
+  refine ⟨((callHook u "before_signal" s).2.k.killD pid sig).2.1, ?_⟩
   rw [C18h.sendSignal_sent u pid sig s hp hnv]
   unfold C18h.newLog
   split
@@ -463,10 +478,10 @@ theorem C18_send_signal_delivers (u pid sig : Nat) (s : State) (hm : pid ∈ (ge
 theorem C18h.sendSignalChild_eq (ppid cpid sig : Nat) (s : State) :
     sendSignalChild ppid cpid sig s =
       match (s.k.children ppid false).2 with
-      | none => (false, { s with k := (s.k.children ppid false).1 })
+      | none => (.noSuch, { s with k := (s.k.children ppid false).1 })
       | some l =>
         if l.contains cpid then kKill cpid sig "" { s with k := (s.k.children ppid false).1 }
-        else (false, { s with k := (s.k.children ppid false).1 }) := by
+        else (.noSuch, { s with k := (s.k.children ppid false).1 }) := by
   unfold sendSignalChild
   simp only [bind, kChildren, runK]
   cases h : (s.k.children ppid false).2 with
@@ -479,14 +494,14 @@ theorem C18h.sendSignalChild_eq (ppid cpid sig : Nat) (s : State) :
 
 /-- **`send_signal_child` only signals current children**: it asks the kernel for the children of
     `ppid` (`psutil children()`, one kernel call) and sends `kill(cpid, sig)` only if `cpid` is in the
-    list returned at that moment; otherwise (not a child, or the parent is gone) it returns False /
+    list returned at that moment; otherwise (not a child, or the parent is gone) it answers
     `NoSuchProcess` and the log is unchanged. -/
 theorem C18_send_signal_child_only_current_children (ppid cpid sig : Nat) (s : State) :
     let r := s.k.children ppid false
     (∀ l, r.2 = some l → cpid ∈ l →
         sendSignalChild ppid cpid sig s = kKill cpid sig "" { s with k := r.1 }) ∧
     ((r.2 = none ∨ ∃ l, r.2 = some l ∧ cpid ∉ l) →
-        sendSignalChild ppid cpid sig s = (false, { s with k := r.1 })) ∧
+        sendSignalChild ppid cpid sig s = (.noSuch, { s with k := r.1 })) ∧
     SigsIn (fun p sg => p = cpid ∧ sg = sig ∧ ∃ l, r.2 = some l ∧ cpid ∈ l) s (sendSignalChild ppid cpid sig s).2 := by
   intro r
   have he := C18h.sendSignalChild_eq ppid cpid sig s
@@ -587,7 +602,7 @@ theorem conf_kKill (p sg : Nat) (via : String) (h : Confined k0 own sig p sg) :
     Conf k0 u own sig (fun _ => True) (kKill p sg via) := by
   intro s hs
   refine ⟨⟨?_, kKill_pres (pidsSubLeafW u own).toLeafK p sg via s hs.2⟩, (kKill_sigs _ p sg via s h).1, trivial⟩
-  rw [(kKill_sigs _ p sg via s h).2]; exact hs.1.trans (PShrink.kill _ _ _)
+  rw [(kKill_sigs _ p sg via s h).2]; exact hs.1.trans (PShrink.killD _ _ _)
 
 theorem conf_kChildren (p : Nat) (r : Bool) :
     Conf k0 u own sig (fun cs => ∀ l, cs = some l → ∀ c ∈ l, k0.Desc p c) (kChildren p r) := by
@@ -632,16 +647,16 @@ theorem conf_sendSignal (pid : Nat) : Conf k0 u own sig (fun _ => True) (sendSig
     have hmem : pid ∈ own := hw pid (by simpa using hc)
     apply Conf.bind (conf_callHook "before_signal")
     intro r _
-    have hjp : ∀ ok : Bool, Conf k0 u own sig (fun _ => True)
-        (if ok = true then (do let _ ← callHook u "after_signal"; pure true) else pure false : M Bool) := by
-      intro ok
-      exact Conf.ite (Conf.bind (conf_callHook "after_signal") (fun _ _ => Conf.pure true trivial))
-        (Conf.pure false trivial)
+    have hjp : ∀ res : SigRes, Conf k0 u own sig (fun _ => True)
+        (if res = .ok then (do let _ ← callHook u "after_signal"; pure SigRes.ok) else pure res : M SigRes) := by
+      intro res
+      exact Conf.ite (Conf.bind (conf_callHook "after_signal") (fun _ _ => Conf.pure _ trivial))
+        (Conf.pure _ trivial)
     refine Conf.ite ?_ ?_
-    · exact Conf.bind (Q := fun _ => True) (Conf.pure true trivial) (fun ok _ => hjp ok)
-    · exact Conf.bind (conf_kKill pid sig "" ⟨rfl, Or.inl hmem⟩) (fun ok _ => hjp ok)
+    · exact Conf.bind (Q := fun _ => True) (Conf.pure SigRes.ok trivial) (fun res _ => hjp res)
+    · exact Conf.bind (conf_kKill pid sig "" ⟨rfl, Or.inl hmem⟩) (fun res _ => hjp res)
   · rw [if_neg hc]
-    exact Conf.pure true trivial
+    exact Conf.pure _ trivial
 
 /-- `Process.send_signal_child` of an own worker `p` is confined -/
 theorem conf_sendSignalChild (p c : Nat) (hp : p ∈ own) :
@@ -650,14 +665,14 @@ theorem conf_sendSignalChild (p c : Nat) (hp : p ∈ own) :
   apply Conf.bind (conf_kChildren p false)
   intro cs hcs
   cases cs with
-  | none => exact Conf.pure false trivial
+  | none => exact Conf.pure _ trivial
   | some l =>
     simp only
     by_cases hc : l.contains c = true
     · rw [if_pos hc]
       exact (conf_kKill c sig "" ⟨rfl, Or.inr ⟨p, hp, hcs l rfl c (by simpa using hc)⟩⟩).mono (fun _ _ => trivial)
     · rw [if_neg hc]
-      exact Conf.pure false trivial
+      exact Conf.pure _ trivial
 
 end
 end C18h
@@ -672,6 +687,20 @@ theorem conf_notify (topic : String) (pid : Option Nat) (x : String) :
   refine ⟨⟨?_, notify_pres (pidsSubLeafW u own) u topic pid x s hs.2⟩, notify_sigs _ u topic pid x s, trivial⟩
   rw [C18h.notify_k]; exact hs.1
 
+/-- the loop over the children of `send_signal_process` on an own worker is confined (it ends at the first child the
+    daemon is not permitted to signal) -/
+theorem conf_signalKids (pid : Nat) (hp : pid ∈ own) (cs : List Nat) :
+    Conf k0 u own sig (fun _ => True) (signalKids u pid sig cs) := by
+  induction cs with
+  | nil => unfold signalKids; exact Conf.pure _ trivial
+  | cons c cs ih =>
+    unfold signalKids
+    apply Conf.bind (conf_sendSignalChild pid c hp)
+    intro r _
+    refine Conf.ite (Conf.pure _ trivial) ?_
+    dsimp only
+    exact Conf.ite (Conf.bind (conf_notify _ _ _) (fun _ _ => ih)) ih
+
 /-- `Watcher.send_signal_process` (used by `kill_process` with `stop_children` and by the SIGKILL
     escalation) on an own worker is confined -/
 theorem conf_sendSignalProcess (pid : Nat) (rc : Bool) (hp : pid ∈ own) :
@@ -684,23 +713,10 @@ theorem conf_sendSignalProcess (pid : Nat) (rc : Bool) (hp : pid ∈ own) :
   | some children =>
     simp only
     apply Conf.bind (conf_sendSignal pid)
-    intro ok _
-    have hjp : ∀ r : Unit, Conf k0 u own sig (fun _ => True)
-        (do forIn children PUnit.unit (fun c (_ : PUnit) => do
-              let okc ← sendSignalChild pid c sig
-              if okc = true then do
-                notify u "kill" (some c)
-                pure (ForInStep.yield PUnit.unit)
-              else pure (ForInStep.yield PUnit.unit))
-            pure () : M Unit) := by
-      intro _
-      refine Conf.bind (Q := fun _ => True) ?_ (fun _ _ => Conf.pure _ trivial)
-      apply Conf.forIn
-      intro c _ _
-      apply Conf.bind (conf_sendSignalChild pid c hp)
-      intro okc _
-      exact Conf.ite (Conf.bind (conf_notify _ _ _) (fun _ _ => Conf.pure _ trivial)) (Conf.pure _ trivial)
-    exact Conf.ite (Conf.bind (conf_notify _ _ _) (fun r _ => hjp r)) (hjp ())
+    intro r _
+    refine Conf.ite (Conf.pure _ trivial) ?_
+    exact Conf.ite (Conf.bind (conf_notify _ _ _) (fun _ _ => conf_signalKids pid hp children))
+      (conf_signalKids pid hp children)
 
 end
 end C18h
@@ -722,16 +738,16 @@ def C18h.sigOwn (w : Watcher) (pj : JVal) : Option Nat :=
   | .int i => if i ≥ 0 && w.pids.contains i.toNat then some i.toNat else none
   | _ => none
 
-/-- one round of `for child in children: os.kill(child, signum)`: a child that is gone
-    (`NoSuchProcess`) sets the error, and once the error is set nothing more is sent -/
+/-- one round of `for child in children: child.send_signal(signum)`: a child that is gone (`NoSuchProcess`) or that
+    the daemon may not signal (`AccessDenied`) sets the error, and once the error is set nothing more is sent -/
 def C18h.sigKillStep (sig : Nat) (c : Nat) (err : Option Exc) : M (ForInStep (Option Exc)) :=
   if err.isNone = true then do
-    let ok ← kKill c sig
-    if (!ok) = true then pure (ForInStep.yield (some Exc.noSuchProcess)) else pure (ForInStep.yield err)
+    let r ← kKill c sig
+    pure (ForInStep.yield r.exc)
   else pure (ForInStep.yield err)
 
-/-- `Process.send_signal_children`: `for child in children: os.kill(child, signum)`, ended by the first
-    child that has vanished since the lookup; returns the error flag -/
+/-- `Process.send_signal_children`: `for child in children: child.send_signal(signum)`, ended by the first
+    child whose signal raises; returns the error flag -/
 def C18h.sigKillAll (sig : Nat) (l : List Nat) (err : Option Exc) : M (Option Exc) :=
   forIn l err (C18h.sigKillStep sig)
 
@@ -742,8 +758,8 @@ def C18h.sigChildpidMode (w : Watcher) (sig : Nat) (childpid pj : JVal) (err : O
   | some p =>
     match childpid with
     | .int c => do
-      let ok ← sendSignalChild p c.toNat sig
-      if (!ok) = true then pure (ForInStep.yield (some Exc.noSuchProcess)) else pure (ForInStep.yield err)
+      let r ← sendSignalChild p c.toNat sig
+      pure (ForInStep.yield r.exc)
     | _ => pure (ForInStep.yield (some (Exc.other "unmodelled")))
 
 /-- `children` (or the `recursive` tail of the plain mode): signal what `children(recursive)` lists -/
@@ -767,9 +783,8 @@ def C18h.sigPlainMode (u : Nat) (w : Watcher) (sig : Nat) (recursive : Bool) (pj
   match pj with
   | .int i =>
     if i ≥ 0 then do
-      let ok ← sendSignal u i.toNat sig
-      if (!ok) = true then C18h.sigRecTail w sig recursive pj (some Exc.noSuchProcess)
-      else C18h.sigRecTail w sig recursive pj err
+      let r ← sendSignal u i.toNat sig
+      C18h.sigRecTail w sig recursive pj r.exc
     else C18h.sigRecTail w sig recursive pj err
   | _ => C18h.sigRecTail w sig recursive pj err
 
@@ -848,8 +863,7 @@ theorem conf_sigKillAll (l : List Nat) (err : Option Exc) (h : ∀ c ∈ l, Conf
   intro c hc e
   unfold sigKillStep
   refine Conf.ite ?_ (Conf.pure _ trivial)
-  exact Conf.bind (conf_kKill c sig "" (h c hc))
-    (fun _ _ => Conf.ite (Conf.pure _ trivial) (Conf.pure _ trivial))
+  exact Conf.bind (conf_kKill c sig "" (h c hc)) (fun _ _ => Conf.pure _ trivial)
 
 theorem conf_sigChildpidMode (w : Watcher) (hw : ∀ x ∈ w.pids, x ∈ own) (childpid pj : JVal) (err : Option Exc) :
     Conf k0 u own sig (fun _ => True) (sigChildpidMode w sig childpid pj err) := by
@@ -860,8 +874,7 @@ theorem conf_sigChildpidMode (w : Watcher) (hw : ∀ x ∈ w.pids, x ∈ own) (c
     have hp : p ∈ own := hw p (sigOwn_mem w pj p ho).1
     cases childpid with
     | int c =>
-      exact Conf.bind (conf_sendSignalChild p c.toNat hp)
-        (fun ok _ => Conf.ite (Conf.pure _ trivial) (Conf.pure _ trivial))
+      exact Conf.bind (conf_sendSignalChild p c.toNat hp) (fun _ _ => Conf.pure _ trivial)
     | _ => exact Conf.pure _ trivial
 
 theorem conf_sigChildrenMode (w : Watcher) (hw : ∀ x ∈ w.pids, x ∈ own) (rc : Bool) (pj : JVal) (err : Option Exc) :
@@ -891,8 +904,7 @@ theorem conf_sigPlainMode (w : Watcher) (hw : ∀ x ∈ w.pids, x ∈ own) (rc :
   | int i =>
     simp only
     refine Conf.ite ?_ (conf_sigRecTail w hw rc _ err)
-    exact Conf.bind (conf_sendSignal i.toNat)
-      (fun ok _ => Conf.ite (conf_sigRecTail w hw rc _ _) (conf_sigRecTail w hw rc _ err))
+    exact Conf.bind (conf_sendSignal i.toNat) (fun r _ => conf_sigRecTail w hw rc _ _)
   | _ => exact conf_sigRecTail w hw rc _ err
 
 theorem conf_signalOne (w : Watcher) (hw : ∀ x ∈ w.pids, x ∈ own) (childpid : JVal) (children rc : Bool)
@@ -1086,8 +1098,6 @@ theorem C18h.signalOne_foreign (u : Nat) (sig : Nat) (cp : JVal) (ch rc : Bool) 
             exact this hm
           simp only [bind]
           rw [C18_send_signal_only_own u i.toNat sig s hnm]
-          simp only
-          erw [if_neg (by simp)]
           exact htail
         · erw [if_neg hi]
           exact htail
@@ -1167,9 +1177,7 @@ theorem C18_signal_own_pid_plain (props : JVal) (s : State) (u p : Nat)
     unfold C18h.sigRecTail
     erw [if_neg (by simp [hrc])]
     rfl
-  by_cases hok : (!(sendSignal u p (((props.get? "signum").bind toSignumJ).getD 0) s).1) = true
-  · erw [if_pos hok]; rw [htail]
-  · erw [if_neg hok]; rw [htail]
+  rw [htail]
 
 /-- **`childpid` mode**: the request is exactly one `process.send_signal_child(childpid, signum)` on
     the listed worker — see `C18_send_signal_child_only_current_children` -/
@@ -1193,16 +1201,25 @@ theorem C18_signal_own_pid_childpid (props : JVal) (s : State) (u p : Nat) (c : 
   obtain ⟨ok, s1⟩ := r
   cases ok <;> rfl
 
-/-! #### the loop over the children: ended by the first child that has vanished -/
+/-! #### the loop over the children: ended by the first child whose signal raises -/
 
 /-- the state after `kill(c, sig)` for the pids of `l`, in order -/
 def C18h.killSeq (sig : Nat) (l : List Nat) (s : State) : State :=
   l.foldl (fun s c => (kKill c sig "" s).2) s
 
-/-- every `kill` of the sequence finds its target (no `NoSuchProcess`) -/
+/-- every `kill` of the sequence is delivered (no `NoSuchProcess`, no `AccessDenied`) -/
 def C18h.AllAlive (sig : Nat) : List Nat → State → Prop
   | [], _ => True
-  | c :: l, s => (kKill c sig "" s).1 = true ∧ C18h.AllAlive sig l (kKill c sig "" s).2
+  | c :: l, s => (kKill c sig "" s).1 = .ok ∧ C18h.AllAlive sig l (kKill c sig "" s).2
+
+theorem C18h.exc_ok_iff (r : SigRes) : r.exc = none ↔ r = .ok := by
+  cases r <;> simp [SigRes.exc]
+
+theorem C18h.exc_some_of_ne_ok (r : SigRes) (h : r ≠ .ok) : ∃ e, r.exc = some e := by
+  cases r with
+  | ok => exact absurd rfl h
+  | noSuch => exact ⟨_, rfl⟩
+  | denied => exact ⟨_, rfl⟩
 
 theorem C18h.sigKillAll_some (sig : Nat) (l : List Nat) (e : Exc) (s : State) :
     C18h.sigKillAll sig l (some e) s = (some e, s) := by
@@ -1221,27 +1238,27 @@ theorem C18h.sigKillAll_some (sig : Nat) (l : List Nat) (e : Exc) (s : State) :
 
 theorem C18h.sigKillAll_cons (sig c : Nat) (l : List Nat) (s : State) :
     C18h.sigKillAll sig (c :: l) none s =
-      if (kKill c sig "" s).1 = true then C18h.sigKillAll sig l none (kKill c sig "" s).2
-      else (some Exc.noSuchProcess, (kKill c sig "" s).2) := by
+      if (kKill c sig "" s).1 = .ok then C18h.sigKillAll sig l none (kKill c sig "" s).2
+      else ((kKill c sig "" s).1.exc, (kKill c sig "" s).2) := by
   have hstep : C18h.sigKillStep sig c none s =
-      (ForInStep.yield (if (kKill c sig "" s).1 = true then none else some Exc.noSuchProcess), (kKill c sig "" s).2) := by
+      (ForInStep.yield (kKill c sig "" s).1.exc, (kKill c sig "" s).2) := by
     unfold C18h.sigKillStep
     erw [if_pos rfl]
-    simp only [bind]
-    cases hk : (kKill c sig "" s).1
-    · erw [if_pos (by rfl)]; rfl
-    · erw [if_neg (by simp)]; rfl
+    rfl
   unfold C18h.sigKillAll
   rw [List.forIn_cons]
   simp only [bind]
   rw [hstep]
   simp only
-  cases hk : (kKill c sig "" s).1
-  · simp only [Bool.false_eq_true, if_false]
+  by_cases hk : (kKill c sig "" s).1 = .ok
+  · rw [if_pos hk, hk]
+    rfl
+  · rw [if_neg hk]
+    obtain ⟨e, he⟩ := C18h.exc_some_of_ne_ok _ hk
+    rw [he]
     exact C18h.sigKillAll_some sig l _ _
-  · simp only [if_true]
 
-/-- all children alive: every one of them is signalled, no error -/
+/-- all children there and signalable: every one of them is signalled, no error -/
 theorem C18h.sigKillAll_all (sig : Nat) (l : List Nat) (s : State) (h : C18h.AllAlive sig l s) :
     C18h.sigKillAll sig l none s = (none, C18h.killSeq sig l s) := by
   induction l generalizing s with
@@ -1250,37 +1267,36 @@ theorem C18h.sigKillAll_all (sig : Nat) (l : List Nat) (s : State) (h : C18h.All
     rw [C18h.sigKillAll_cons, if_pos h.1, ih _ h.2]
     rfl
 
-/-- the loop stops at the first vanished child: the children before it (`pre`, all found) and the
-    vanished one (`c`) have been `kill`ed, the ones after it (`post`) are not touched — the final
-    state is the state right after `kill(c)` — and the error is `NoSuchProcess` -/
+/-- the loop stops at the first child whose signal raises: the children before it (`pre`, all delivered) and the
+    failing one (`c`) have been `kill`ed, the ones after it (`post`) are not touched — the final
+    state is the state right after `kill(c)` — and the error is the exception of that call
+    (`NoSuchProcess` for a child that has vanished, `AccessDenied` for one the daemon may not signal) -/
 theorem C18h.sigKillAll_stops (sig : Nat) (pre : List Nat) (c : Nat) (post : List Nat) (s : State)
-    (halive : C18h.AllAlive sig pre s) (hgone : (kKill c sig "" (C18h.killSeq sig pre s)).1 = false) :
+    (halive : C18h.AllAlive sig pre s) (hfail : (kKill c sig "" (C18h.killSeq sig pre s)).1 ≠ .ok) :
     C18h.sigKillAll sig (pre ++ c :: post) none s =
-      (some Exc.noSuchProcess, (kKill c sig "" (C18h.killSeq sig pre s)).2) := by
+      ((kKill c sig "" (C18h.killSeq sig pre s)).1.exc, (kKill c sig "" (C18h.killSeq sig pre s)).2) := by
   induction pre generalizing s with
   | nil =>
-    have hg : (kKill c sig "" s).1 = false := hgone
-    rw [List.nil_append, C18h.sigKillAll_cons, if_neg (by rw [hg]; simp)]
+    have hg : (kKill c sig "" s).1 ≠ .ok := hfail
+    rw [List.nil_append, C18h.sigKillAll_cons, if_neg hg]
     rfl
   | cons x pre ih =>
     rw [List.cons_append, C18h.sigKillAll_cons, if_pos halive.1]
-    exact ih _ halive.2 hgone
+    exact ih _ halive.2 hfail
 
 /-- **exactly a prefix**: the loop over the list `l` that `children()` returned either signals all of
-    `l` (every child found, no error), or signals `pre ++ [c]` for a decomposition `l = pre ++ c :: post`
-    where `c` is the first child that is gone, and answers `NoSuchProcess` -/
+    `l` (every signal delivered, no error), or signals `pre ++ [c]` for a decomposition `l = pre ++ c :: post`
+    where `c` is the first child whose signal raises, and answers with that exception -/
 theorem C18h.sigKillAll_prefix (sig : Nat) (l : List Nat) (s : State) :
     (C18h.AllAlive sig l s ∧ C18h.sigKillAll sig l none s = (none, C18h.killSeq sig l s)) ∨
     (∃ pre c post, l = pre ++ c :: post ∧ C18h.AllAlive sig pre s ∧
-      (kKill c sig "" (C18h.killSeq sig pre s)).1 = false ∧
-      C18h.sigKillAll sig l none s = (some Exc.noSuchProcess, C18h.killSeq sig (pre ++ [c]) s)) := by
+      (kKill c sig "" (C18h.killSeq sig pre s)).1 ≠ .ok ∧
+      C18h.sigKillAll sig l none s =
+        ((kKill c sig "" (C18h.killSeq sig pre s)).1.exc, C18h.killSeq sig (pre ++ [c]) s)) := by
   induction l generalizing s with
   | nil => exact Or.inl ⟨trivial, rfl⟩
   | cons x l ih =>
-    cases hk : (kKill x sig "" s).1
-    · refine Or.inr ⟨[], x, l, rfl, trivial, hk, ?_⟩
-      rw [C18h.sigKillAll_cons, if_neg (by rw [hk]; simp)]
-      rfl
+    by_cases hk : (kKill x sig "" s).1 = .ok
     · rcases ih (kKill x sig "" s).2 with ⟨ha, he⟩ | ⟨pre, c, post, hl, ha, hg, he⟩
       · refine Or.inl ⟨⟨hk, ha⟩, ?_⟩
         rw [C18h.sigKillAll_cons, if_pos hk, he]
@@ -1288,6 +1304,9 @@ theorem C18h.sigKillAll_prefix (sig : Nat) (l : List Nat) (s : State) :
       · refine Or.inr ⟨x :: pre, c, post, by rw [hl]; rfl, ⟨hk, ha⟩, hg, ?_⟩
         rw [C18h.sigKillAll_cons, if_pos hk, he]
         rfl
+    · refine Or.inr ⟨[], x, l, rfl, trivial, hk, ?_⟩
+      rw [C18h.sigKillAll_cons, if_neg hk]
+      rfl
 
 /-- `children` mode on a listed worker, as an equation: one `children()` query, then the loop -/
 theorem C18h.signal_children_eq (props : JVal) (s : State) (u p : Nat)
@@ -1333,10 +1352,10 @@ theorem C18h.signal_children_eq (props : JVal) (s : State) (u p : Nat)
 
 /-- **`children` mode**: one `children()` query on the listed worker (if the worker is gone:
     `NoSuchProcess`, no signal), then `kill(child, signum)` for a *prefix* of the list `l` that query
-    returned, in order: either all of `l` — every child was found, reply ok — or `pre ++ [c]` where
-    `l = pre ++ c :: post`, the children of `pre` were found and `c` is the first one that has vanished
-    since the lookup (`kill` reports `gone`): the children after it (`post`) get nothing and the
-    reply is the error `NoSuchProcess`. -/
+    returned, in order: either all of `l` — every signal was delivered, reply ok — or `pre ++ [c]` where
+    `l = pre ++ c :: post`, the children of `pre` got theirs and `c` is the first one whose signal raises — it has
+    vanished since the lookup (`NoSuchProcess`) or the daemon is not permitted to signal it (`AccessDenied`): the
+    children after it (`post`) get nothing and the reply is that error (errno 5 either way). -/
 theorem C18_signal_own_pid_children (props : JVal) (s : State) (u p : Nat)
     (hu : (getWatcherCmd ((props.get? "name").getD .null) s).1 = .ok u)
     (hpid : props.get? "pid" = some (.int (p : Nat))) (hown : p ∈ (getW u s).1.pids)
@@ -1348,9 +1367,10 @@ theorem C18_signal_own_pid_children (props : JVal) (s : State) (u p : Nat)
     | none => execSignal props s = (.error Exc.noSuchProcess, s1)
     | some l =>
       (C18h.AllAlive sig l s1 ∧ execSignal props s = (.ok (.value "-"), C18h.killSeq sig l s1)) ∨
-      (∃ pre c post, l = pre ++ c :: post ∧ C18h.AllAlive sig pre s1 ∧
-        (kKill c sig "" (C18h.killSeq sig pre s1)).1 = false ∧
-        execSignal props s = (.error Exc.noSuchProcess, C18h.killSeq sig (pre ++ [c]) s1)) := by
+      (∃ pre c post e, l = pre ++ c :: post ∧ C18h.AllAlive sig pre s1 ∧
+        (kKill c sig "" (C18h.killSeq sig pre s1)).1 ≠ .ok ∧
+        (kKill c sig "" (C18h.killSeq sig pre s1)).1.exc = some e ∧
+        execSignal props s = (.error e, C18h.killSeq sig (pre ++ [c]) s1)) := by
   intro sig s1
   have h := C18h.signal_children_eq props s u p hu hpid hown hcp hch
   cases hc : (kChildren p false s).1 with
@@ -1360,10 +1380,42 @@ theorem C18_signal_own_pid_children (props : JVal) (s : State) (u p : Nat)
     simp only at h ⊢
     rcases C18h.sigKillAll_prefix sig l s1 with ⟨ha, he⟩ | ⟨pre, c, post, hl, ha, hg, he⟩
     · exact Or.inl ⟨ha, by rw [h]; rw [he]⟩
-    · exact Or.inr ⟨pre, c, post, hl, ha, hg, by rw [h]; rw [he]⟩
+    · obtain ⟨e, hee⟩ := C18h.exc_some_of_ne_ok _ hg
+      refine Or.inr ⟨pre, c, post, e, hl, ha, hg, hee, ?_⟩
+      rw [h]; rw [he, hee]
+
+/-- the loop over the children ends at the first child whose signal raises (`r` = what that `kill` answered, not
+    `.ok`; `e` = its exception): the final state is the state immediately after that `kill(c)`, the reply the error -/
+theorem C18h.signal_children_stops (props : JVal) (s : State) (u p : Nat)
+    (pre : List Nat) (c : Nat) (post : List Nat) (e : Exc)
+    (hu : (getWatcherCmd ((props.get? "name").getD .null) s).1 = .ok u)
+    (hpid : props.get? "pid" = some (.int (p : Nat))) (hown : p ∈ (getW u s).1.pids)
+    (hcp : ((props.get? "childpid").getD .null).truthy = false)
+    (hch : ((props.get? "children").map JVal.truthy).getD false = true)
+    (hl : (kChildren p false s).1 = some (pre ++ c :: post))
+    (halive : C18h.AllAlive (((props.get? "signum").bind toSignumJ).getD 0) pre (kChildren p false s).2)
+    (hfail : (kKill c (((props.get? "signum").bind toSignumJ).getD 0) ""
+      (C18h.killSeq (((props.get? "signum").bind toSignumJ).getD 0) pre (kChildren p false s).2)).1.exc = some e) :
+    let sig := ((props.get? "signum").bind toSignumJ).getD 0
+    let sGone := (kKill c sig "" (C18h.killSeq sig pre (kChildren p false s).2)).2
+    execSignal props s = (.error e, sGone) ∧ NoSig sGone (execSignal props s).2 := by
+  intro sig sGone
+  have hne : (kKill c sig "" (C18h.killSeq sig pre (kChildren p false s).2)).1 ≠ .ok := by
+    intro hok
+    have hfail' : (kKill c sig "" (C18h.killSeq sig pre (kChildren p false s).2)).1.exc = some e := hfail
+    rw [hok] at hfail'
+    cases hfail'
+  have h := C18h.signal_children_eq props s u p hu hpid hown hcp hch
+  rw [hl] at h
+  simp only at h
+  rw [C18h.sigKillAll_stops sig pre c post _ halive hne] at h
+  have hfail' : (kKill c sig "" (C18h.killSeq sig pre (kChildren p false s).2)).1.exc = some e := hfail
+  simp only [hfail'] at h
+  have h2 : execSignal props s = (.error e, sGone) := h
+  exact ⟨h2, by rw [h2]; exact .refl⟩
 
 /-- **the loop over the children stops at a vanished child**: in `children` mode on a listed worker,
-    if `children()` returned `pre ++ c :: post`, the children of `pre` were all found and `kill(c)`
+    if `children()` returned `pre ++ c :: post`, the children of `pre` all got the signal and `kill(c)`
     reports that `c` is gone (it vanished since the lookup: psutil raises `NoSuchProcess`), then the
     request ends right there: the final state is the state immediately after that `kill(c)` — so no
     further `Obs.sig` is appended, the children in `post` get no signal — and the reply is the error
@@ -1377,17 +1429,30 @@ theorem C18_signal_children_stops_at_vanished_child (props : JVal) (s : State) (
     (hl : (kChildren p false s).1 = some (pre ++ c :: post))
     (halive : C18h.AllAlive (((props.get? "signum").bind toSignumJ).getD 0) pre (kChildren p false s).2)
     (hgone : (kKill c (((props.get? "signum").bind toSignumJ).getD 0) ""
-      (C18h.killSeq (((props.get? "signum").bind toSignumJ).getD 0) pre (kChildren p false s).2)).1 = false) :
+      (C18h.killSeq (((props.get? "signum").bind toSignumJ).getD 0) pre (kChildren p false s).2)).1 = .noSuch) :
     let sig := ((props.get? "signum").bind toSignumJ).getD 0
     let sGone := (kKill c sig "" (C18h.killSeq sig pre (kChildren p false s).2)).2
-    execSignal props s = (.error Exc.noSuchProcess, sGone) ∧ NoSig sGone (execSignal props s).2 := by
-  intro sig sGone
-  have h := C18h.signal_children_eq props s u p hu hpid hown hcp hch
-  rw [hl] at h
-  simp only at h
-  rw [C18h.sigKillAll_stops sig pre c post _ halive hgone] at h
-  have h2 : execSignal props s = (.error Exc.noSuchProcess, sGone) := h
-  exact ⟨h2, by rw [h2]; exact .refl⟩
+    execSignal props s = (.error Exc.noSuchProcess, sGone) ∧ NoSig sGone (execSignal props s).2 :=
+  C18h.signal_children_stops props s u p pre c post _ hu hpid hown hcp hch hl halive (by rw [hgone]; rfl)
+
+/-- **… and at a child the daemon is not permitted to signal**: the same with `kill(c)` refused (EPERM, psutil
+    raises `AccessDenied`, which `send_signal_children` does not catch either): the attempt on `c` is the last entry
+    of the log, the children in `post` get no signal, the reply is the error `AccessDenied` (errno 5) — the signal
+    still went only to children of the addressed worker. -/
+theorem C18_signal_children_stops_at_unsignalable_child (props : JVal) (s : State) (u p : Nat)
+    (pre : List Nat) (c : Nat) (post : List Nat)
+    (hu : (getWatcherCmd ((props.get? "name").getD .null) s).1 = .ok u)
+    (hpid : props.get? "pid" = some (.int (p : Nat))) (hown : p ∈ (getW u s).1.pids)
+    (hcp : ((props.get? "childpid").getD .null).truthy = false)
+    (hch : ((props.get? "children").map JVal.truthy).getD false = true)
+    (hl : (kChildren p false s).1 = some (pre ++ c :: post))
+    (halive : C18h.AllAlive (((props.get? "signum").bind toSignumJ).getD 0) pre (kChildren p false s).2)
+    (hden : (kKill c (((props.get? "signum").bind toSignumJ).getD 0) ""
+      (C18h.killSeq (((props.get? "signum").bind toSignumJ).getD 0) pre (kChildren p false s).2)).1 = .denied) :
+    let sig := ((props.get? "signum").bind toSignumJ).getD 0
+    let sDen := (kKill c sig "" (C18h.killSeq sig pre (kChildren p false s).2)).2
+    execSignal props s = (.error (Exc.other "AccessDenied"), sDen) ∧ NoSig sDen (execSignal props s).2 :=
+  C18h.signal_children_stops props s u p pre c post _ hu hpid hown hcp hch hl halive (by rw [hden]; rfl)
 
 /-! ### `Kill.execute` -/
 
@@ -1688,5 +1753,24 @@ example : (((C18h.newLog c18t (execSignal c18treq c18t).2).filter C18h.isSig).ma
 -- … and without the fault all three children are signalled (`C18h.sigKillAll_all`)
 example : (((C18h.newLog c18t0 (execSignal c18treq c18t0).2).filter C18h.isSig).map showObs) =
     ["o sig 101 12 r", "o sig 102 12 r", "o sig 103 12 r"] := by decide +kernel
+
+
+-- C18_signal_children_stops_at_unsignalable_child: worker 100 with children 101, 102, 103 that run under another uid
+-- (the daemon may signal the worker, not its children): the first child's signal is refused, 102 and 103 get nothing,
+-- the reply is AccessDenied — and the one attempt went to a child of the addressed worker
+def c18d : State := run (initState [{ name := "a" }] [{ kids := 3, kidEperm := true }] 0) [.start, .wake, .wake]
+example : (kChildren 100 false c18d).1 = some ([] ++ 101 :: [102, 103]) := by decide +kernel
+example := C18_signal_children_stops_at_unsignalable_child c18treq c18d 1 100 [] 101 [102, 103]
+  (by decide +kernel) (by rfl) (by decide +kernel) (by decide +kernel) (by decide +kernel) (by decide +kernel)
+  trivial (by decide +kernel)
+example : (((C18h.newLog c18d (execSignal c18treq c18d).2).filter C18h.isSig).map showObs) = ["o sig 101 12 r!"] ∧
+    (match (execSignal c18treq c18d).1 with | .error (.other "AccessDenied") => true | _ => false) = true := by
+  decide +kernel
+-- C18_send_signal_delivers on a worker the daemon may not signal: the attempt is recorded as refused
+def c18e : State := run (initState [{ name := "a" }] [{ eperm := true }] 0) [.start, .wake, .wake]
+example : ((callHook 1 "before_signal" c18e).2.k.killD 100 15).2.2 = true ∧ 100 ∈ (getW 1 c18e).1.pids ∧
+    c18e.blocked = false ∧ (sendSignal 1 100 15 c18e).1 = .denied := by decide +kernel
+example : (((C18h.newLog c18e (sendSignal 1 100 15 c18e).2).filter C18h.isSig).map showObs) = ["o sig 100 15 r!"] := by
+  decide +kernel
 
 end Circus.Core
